@@ -2,6 +2,8 @@
 """Summarise the files the mutation scan left under $MUTSCAN_DIR into tools/mutscan_results.md"""
 import json, os, collections
 R = os.environ.get("MUTSCAN_DIR", "/tmp/mutscan")
+if not os.path.isdir(R):
+    R = "/verif/tools/mutscan_data"  # the files kept from the run of 2026-10-05
 def rd(n):
     try:
         return [json.loads(l) for l in open(os.path.join(R, n))]
